@@ -113,8 +113,8 @@ class Cell2Coord(Family):
         col = imod(c, ncols)
         row = floor_div(c - col, ncols)
         x, y = O['xycoords']
-        ex = fadd(I['xll'], fmul(csz, fadd(lift(col), 0.5)))
-        ey = fadd(I['yll'], fmul(csz, fadd(lift(nrows - 1 - row), 0.5)))
+        ex = fadd(I['xll'], fmul(csz, fadd(tor(col), 0.5)))
+        ey = fadd(I['yll'], fmul(csz, fadd(tor(nrows - 1 - row), 0.5)))
         return [('centre-x', b_implies(valid, fsame(x, ex, self.tol))), ('centre-y', b_implies(valid, fsame(y, ey, self.tol))),
                 ('invalid->nan', b_implies(b_not(valid), b_and(fisnan(x), fisnan(y)))),
                 ('cell-unchanged', O['idxcell'][0] == c), ('ret0', O['ret'] == 0)]
